@@ -29,6 +29,7 @@
  *            I:<status>:<hex header lines>   (h2 only) interim response
  *            H:<status>:<hex header lines>   (h2 only) final HEADERS
  *            T:<hex>   (h2 only) END_STREAM with trailers, E (END_STREAM), R (RST_STREAM)
+ *            X         the request would be dispatched again (handler_module lost), case abandoned
  *   dechunk <max_field> <send_chunked> <hex seg> ...   http_chunk_decode_append_mem only
  *     output: ok|err out=<hex> te=<n> h=<hex> done=<n> fin=<0|1> ka=<0|1>
  *   fcgi <hex seg> ...    fastcgi_get_packet()/fcgi_recv_parse_loop() record level only, with
@@ -154,6 +155,7 @@ static int ltv_h2_send_1xx(request_st *r, connection *c) { (void)c; out_hdrs(r, 
 
 /* ------------------------------------------------------------------ state machine stub */
 static int done_state;   /* 0 running, 1 response end reached */
+static int redispatch;   /* request would be dispatched again (see ltv_step) */
 
 static void ltv_step_h1(request_st * const r) {
     for (;;) {
@@ -269,7 +271,17 @@ static void ltv_step_h2(request_st * const r) {
 }
 
 static void ltv_step(request_st * const r) {
-    if (done_state) return;
+    if (done_state || redispatch) return;
+    if (NULL == r->handler_module
+        && (r->state == CON_STATE_HANDLE_REQUEST || r->state == CON_STATE_READ_POST)) {
+        /* http_response_handler() would now run http_response_prepare(), i.e. dispatch the request
+         * again from scratch (a response head with an unusable Status field inside a 1xx block leaves
+         * handler_module NULL while the backend context is still alive); not followed any further */
+        flush_w();
+        buffer_append_string_len(out, CONST_STR_LEN("X "));
+        redispatch = 1;
+        return;
+    }
     if (r->http_version == HTTP_VERSION_2) ltv_step_h2(r); else ltv_step_h1(r);
     ltv_sched_run(ev);
 }
@@ -300,6 +312,7 @@ static void case_reset(request_st * const r) {
     con.traffic_limit_reached = 0;
     con.request_count = 1;
     done_state = 0;
+    redispatch = 0;
     host.load = 0; proc.load = 0; host.hctxs = NULL;
     host.tcp_fin_propagate = 0;
 }
